@@ -182,6 +182,45 @@ func runC18(b *mon.B) {
 		}
 	}
 
+	// two ASCII logins multiplexed on one connection: A is taken to the password prompt, B is started,
+	// then A's password arrives (and further packets of both); packets are (session index, plan)
+	runInterleaved := func(label string, pwA, pwB string, seqs [][2]int, plans [2][]pktPlan) {
+		caseNo++
+		if !b.Want(caseNo) {
+			return
+		}
+		b.Eval(1)
+		rc := newRefConn(ref, caseNo%60000+1, key)
+		sids := [2]uint32{r.U32(), r.U32()}
+		pos := [2]int{}
+		for _, st := range seqs {
+			si := st[0]
+			if pos[si] >= len(plans[si]) {
+				continue
+			}
+			p := plans[si][pos[si]]
+			h := rfc8907.Header{Major: 0xc, Minor: p.Minor, Type: p.Type, Seq: 1 + 2*pos[si], Flags: p.Flags | st[1], Session: sids[si]}
+			pos[si]++
+			res := rc.send(h, p.Body, true)
+			if res.Err != nil {
+				b.Inconclusive("watchdog in %s", label)
+				break
+			}
+			if res.State.Closed {
+				break
+			}
+		}
+		rc.c.EOF()
+		rc.c.WaitClosed()
+		ref.Net.Forget(rc.c)
+		entries := ref.Log.Reset()
+		b.Count("logger_calls_captured", len(entries))
+		b.Class("%s", label)
+		st := stock.take()
+		b.Count("stock_logger_bytes", len(st))
+		search(label, map[string]string{"shared-secret": secretTok, "password": pwA, "second-password": pwB}, entries, st, label)
+	}
+
 	pickUser := func() (string, string, string) { // name, its real password (may be ""), kind
 		switch r.Intn(5) {
 		case 0:
@@ -236,6 +275,22 @@ func runC18(b *mon.B) {
 		right := real != "" && r.Bool()
 		if right {
 			pw = real
+		}
+		if k%9 == 4 {
+			userB, realB, _ := pickUser()
+			pwB := freshTok()
+			if realB != "" && r.Bool() {
+				pwB = realB
+			}
+			a := asciiLogin(user, false, pw, 0)       // START, user name, password
+			bb := asciiLogin(userB, r.Bool(), pwB, 0) // START(+user), [user name,] password
+			orders := [][][2]int{
+				{{0, 0}, {0, 0}, {1, 0}, {0, 0}, {1, 0}, {1, 0}},
+				{{0, 4}, {1, 4}, {0, 4}, {1, 4}, {0, 4}, {1, 4}},
+				{{1, 0}, {0, 0}, {0, 0}, {1, 0}, {0, 0}, {1, 0}},
+			}
+			runInterleaved("two-ascii-logins-interleaved", pw, pwB, orders[r.Intn(len(orders))], [2][]pktPlan{a.Pkts, bb.Pkts})
+			continue
 		}
 		flow := r.Intn(14)
 		switch flow {
